@@ -8,25 +8,23 @@ From MLV Require Import gen.Params model.Bytes model.Crc32c model.Id model.Node 
 Open Scope N_scope.
 
 (* the invariant of C12 holds along every timeline *)
-Theorem C14_table_invariant_kept : forall m now resp, MInv m ->
-  (forall i ip port, resp = Some (i, ip, port) -> id_wf i = true) -> MInv (fst (mt_tick m now resp)).
+Theorem C14_table_invariant_kept : forall m now inp, MInv m -> input_wf inp -> MInv (fst (mt_tick m now inp)).
 Proof. exact tick_inv. Qed.
 
 (* a peer heard from within the last 15 minutes is still in the table after any iteration — maintenance
    round or not, whoever else answers in it *)
-Theorem C14_fresh_peer_stays : forall m now resp n, MInv m ->
-  (forall i ip port, resp = Some (i, ip, port) -> id_wf i = true /\ i <> nid n) ->
+Theorem C14_fresh_peer_stays : forall m now inp n, MInv m -> input_wf inp -> input_id inp <> Some (nid n) ->
   In n (rt_values (mt_rt m)) -> is_stale now n = false ->
-  In n (rt_values (mt_rt (fst (mt_tick m now resp)))).
+  In n (rt_values (mt_rt (fst (mt_tick m now inp)))).
 Proof. exact tick_keeps_fresh. Qed.
 
 (* a peer that answers is (re-)entered with last_seen = now whenever the table's add accepts it; by C12
    the add refuses only the node's own id, an IP-rule conflict with another node, or a bucket full of
    fresh nodes *)
-Theorem C14_answer_refreshes : forall m now i ip port,
+Theorem C14_answer_refreshes : forall m now i ip port v,
   let n := mk_node i ip port None now in
   snd (rt_add now (mt_rt m) n) = true -> MInv m -> id_wf i = true ->
-  In n (rt_values (mt_rt (mt_response m now (i, ip, port)))).
+  In n (rt_values (mt_rt (mt_response m now (i, ip, port) v))).
 Proof. exact response_outcome. Qed.
 
 (* a round is run in the first iteration more than 5 minutes after the previous one ... *)
@@ -38,7 +36,7 @@ Proof. exact round_due. Qed.
    at most `gap` apart, at most 15 + 5 minutes + gap after its last answer *)
 Theorem C14_silent_peer_dropped : forall m now s, MInv m -> In s (rt_values (mt_rt m)) -> is_stale now s = true ->
   (PING_INTERVAL < now - mt_ping m)%Z ->
-  forall x, In x (rt_values (mt_rt (fst (mt_tick m now None)))) -> nid x <> nid s.
+  forall x, In x (rt_values (mt_rt (fst (mt_tick m now INone)))) -> nid x <> nid s.
 Proof. exact tick_drops_stale. Qed.
 
 (* the round pings exactly the non-stale nodes not heard from for more than 10 seconds *)
@@ -55,6 +53,11 @@ Theorem C14_refresh_every_15_minutes : forall m now, (REFRESH_INTERVAL < now - m
   o_populate (snd (mt_maintain m now)) = true /\ mt_refresh (fst (mt_maintain m now)) = now.
 Proof. exact refresh_due. Qed.
 
+(* requests from other nodes never change the main table of a node that has bootstrap nodes *)
+Theorem C14_requests_leave_main_table : forall m now who v, mt_rt (mt_request m now who v false) = mt_rt m.
+Proof. exact request_leaves_main_table. Qed.
+
+Print Assumptions C14_requests_leave_main_table.
 Print Assumptions C14_table_invariant_kept.
 Print Assumptions C14_fresh_peer_stays.
 Print Assumptions C14_answer_refreshes.
